@@ -39,6 +39,7 @@ type fev struct {
 	Fields   []hfield // decoded header block
 	HdrErr   string   // header block decoding error
 	Code     uint32   // RST_STREAM / GOAWAY error code
+	Last     uint32   // GOAWAY last stream id
 	Inc      uint32   // WINDOW_UPDATE increment
 	Ack      bool     // SETTINGS / PING ack
 	Ping     uint64
@@ -166,7 +167,7 @@ func (r *rig) readLoop() {
 			e.Code = uint32(f.ErrCode)
 		case *xh2.GoAwayFrame:
 			e.Code = uint32(f.ErrCode)
-			e.Stream = f.LastStreamID
+			e.Last = f.LastStreamID
 		case *xh2.WindowUpdateFrame:
 			e.Inc = f.Increment
 		case *xh2.PingFrame:
